@@ -13,15 +13,22 @@
 //!   T fam pfx i:a,..    RIB_IPVx_UNICAST record for prefix pfx: entries (peer index i, attributes a)
 //!   M v p af a ps wf ws BGP4MP message of pool peer p holding an UPDATE (announce ps of family af with
 //!                       attributes a, withdraw ws of family wf); v = 2 MESSAGE | 4 MESSAGE_AS4 | 12 | 14 the _ET forms
+//!   MB v p hex          BGP4MP message of pool peer p holding the octets `hex` as they are: a BGP PDU from C04's proved
+//!                       encoder (oracle c04enc; any of the four families, MP_REACH / MP_UNREACH / conventional fields) or a
+//!                       malformed variant of one (an MP attribute whose last NLRI is spoilt next to a good other half, ..)
 //!   K v p k             BGP4MP message holding k = o OPEN | k KEEPALIVE | n NOTIFICATION | g bytes that are no BGP message
 //!                       | x an UPDATE whose NLRI does not parse
 //!   S v p old new       BGP4MP STATE_CHANGE (v = 2) / STATE_CHANGE_AS4 (v = 4) / _ET (12, 14)
 //!   N st                a TABLE_DUMP_V2 record of subtype st (3,5,6: multicast / generic) with an empty body
 //!   W                   barrier: everything written so far is enqueued (in order, at once) and awaited
 //!   Q af pfx            barrier, then query the RIB for the exact prefix
+//!   QX af len/hex       the same for a prefix in wire form (af 0 IPv4, 1 IPv6)
 //!
 //! A record with no open file opens a plain one (so every subsequence of a case is a case).
 //! Observation: per barrier `[` <one token per update that left the gate> `]`, per Q also `q:<entries>`.
+//! A prefix is shown as the number the abstract ops use when it is 10.<n>.0.0/16 or 2001:db8:<n>::/48, else as
+//! <len>/<hex of its octets>; an attribute set as the number of the abstract op that made it when the stored octets
+//! are exactly those this engine's encoder wrote for that op, else as n<length>h<FNV-1a of the octets> (as engine pipe).
 use crate::util::ops;
 use rotonda::comms::Gate;
 use rotonda::ingress::Register;
@@ -59,6 +66,30 @@ pub(crate) fn addr_n(a: IpAddr) -> u32 {
     match a {
         IpAddr::V4(a) => a.octets()[3] as u32,
         IpAddr::V6(a) => 100 + a.segments()[7] as u32,
+    }
+}
+
+// ---------------------------------------------------------------- attribute sets of the abstract ops
+/// the path attribute octets this engine's own encoders wrote for an abstract op (`T` entry, `M` UPDATE) -> its attribute number
+static ABSTRACT: std::sync::Mutex<Option<std::collections::HashMap<Vec<u8>, u32>>> = std::sync::Mutex::new(None);
+fn note_abstract(blob: &[u8], a: u32) {
+    let mut g = ABSTRACT.lock().unwrap_or_else(|e| e.into_inner());
+    g.get_or_insert_with(Default::default).entry(blob.to_vec()).or_insert(a);
+}
+fn fnv(b: &[u8]) -> u32 {
+    let mut h: u32 = 0x811c9dc5;
+    for x in b {
+        h ^= *x as u32;
+        h = h.wrapping_mul(16777619);
+    }
+    h
+}
+pub(crate) fn attr_tok(meta: &rotonda::payload::RotondaPaMap) -> String {
+    let blob = meta.0.clone().into_vec();
+    let g = ABSTRACT.lock().unwrap_or_else(|e| e.into_inner());
+    match g.as_ref().and_then(|m| m.get(&blob)) {
+        Some(a) => a.to_string(),
+        None => format!("n{}h{:08x}", blob.len(), fnv(&blob)),
     }
 }
 
@@ -119,6 +150,7 @@ pub(crate) fn rib_record(fam: u32, pfx: u32, entries: &[(u16, u32)], seq: u32) -
         b.extend_from_slice(&0x5fff_0000u32.to_be_bytes());
         let mut at = attr_origin_aspath(a);
         if fam % 2 == 0 { at.extend_from_slice(&[0x40, 3, 4, 10, 0, 0, 1]); }
+        note_abstract(&at, a);
         b.extend_from_slice(&(at.len() as u16).to_be_bytes());
         b.extend_from_slice(&at);
     }
@@ -165,6 +197,7 @@ pub(crate) fn bgp_update(af: u32, a: u32, ps: &[u32], wf: u32, ws: &[u32]) -> Ve
             attrs.extend_from_slice(&m);
         }
     }
+    if !ps.is_empty() { note_abstract(&attrs, a); }
     let mut b = vec![];
     b.extend_from_slice(&(withdrawn.len() as u16).to_be_bytes());
     b.extend_from_slice(&withdrawn);
@@ -309,19 +342,48 @@ impl Namer {
     }
 }
 
-pub(crate) fn route_tok(r: &RotondaRoute) -> (String, u32) {
+/// the prefix as the case names it: the abstract ops' number, or <len>/<hex of the octets the length covers>
+pub(crate) fn prefix_tok(fam: u32, p: inetnum::addr::Prefix) -> String {
+    if let Some(k) = (0..256u32).find(|k| inetnum::addr::Prefix::from_str(&prefix_str(fam, *k)).ok() == Some(p)) {
+        return format!("{k}");
+    }
+    let octs: Vec<u8> = match p.addr() { IpAddr::V4(a) => a.octets().to_vec(), IpAddr::V6(a) => a.octets().to_vec() };
+    let n = (p.len() as usize + 7) / 8;
+    let hex: String = octs[..n].iter().map(|b| format!("{b:02x}")).collect();
+    format!("{}/{}", p.len(), if hex.is_empty() { "-".to_string() } else { hex })
+}
+
+pub(crate) fn route_tok(r: &RotondaRoute) -> (String, String) {
     let (fam, s, meta) = match r {
         RotondaRoute::Ipv4Unicast(n, m) => (0, n.to_string(), m),
         RotondaRoute::Ipv6Unicast(n, m) => (1, n.to_string(), m),
         RotondaRoute::Ipv4Multicast(n, m) => (2, n.to_string(), m),
         RotondaRoute::Ipv6Multicast(n, m) => (3, n.to_string(), m),
     };
-    // back from the text of the prefix to the case's prefix number
-    let pfx = inetnum::addr::Prefix::from_str(&s).ok();
-    let num = pfx.and_then(|p| {
-        (0..256u32).find(|k| inetnum::addr::Prefix::from_str(&prefix_str(fam, *k)).ok() == Some(p))
-    });
-    (match num { Some(k) => format!("{fam}.{k}"), None => format!("{fam}.?{s}") }, first_hop(meta))
+    // back from the text of the prefix to the case's prefix number / wire form
+    match inetnum::addr::Prefix::from_str(&s) {
+        Ok(p) => (format!("{fam}.{}", prefix_tok(fam, p)), attr_tok(meta)),
+        Err(_) => (format!("{fam}.?{s}"), attr_tok(meta)),
+    }
+}
+
+/// a prefix in wire form <len>/<hex|->; af 0 IPv4, 1 IPv6
+pub(crate) fn wire_prefix(af: u32, tok: &str) -> Option<inetnum::addr::Prefix> {
+    let (l, h) = tok.split_once('/')?;
+    let len: u8 = l.parse().ok()?;
+    let bs = if h == "-" { vec![] } else { super::c04::unhex(h)? };
+    let addr = if af % 2 == 0 {
+        let mut o = [0u8; 4];
+        if bs.len() > 4 { return None; }
+        o[..bs.len()].copy_from_slice(&bs);
+        IpAddr::V4(Ipv4Addr::from(o))
+    } else {
+        let mut o = [0u8; 16];
+        if bs.len() > 16 { return None; }
+        o[..bs.len()].copy_from_slice(&bs);
+        IpAddr::V6(Ipv6Addr::from(o))
+    };
+    inetnum::addr::Prefix::new(addr, len).ok()
 }
 
 pub(crate) fn show_update(nm: &Namer, u: &Update) -> String {
@@ -455,19 +517,21 @@ fn run_in(line: &str, root: &std::path::Path) -> String {
                 rec(rib_record(n(1), n(2), &es, seq), &mut cur)
             }
             "M" => rec(bgp4mp_message(n(1), n(2) as usize, &bgp_update(n(3), n(4), &plist(op[5]), n(6), &plist(op[7]))), &mut cur),
+            "MB" => rec(bgp4mp_message(n(1), n(2) as usize, &super::c04::unhex(op[3]).expect("MB: hex")), &mut cur),
             "K" => rec(bgp4mp_message(n(1), n(2) as usize, &bgp_other(op[3])), &mut cur),
             "S" => rec(bgp4mp_state(n(1), n(2) as usize, n(3) as u16, n(4) as u16), &mut cur),
             "N" => rec(mrt_record(13, n(1) as u16, false, &[]), &mut cur),
             "W" => { close(&mut cur, &mut pending); barrier(&mut pending, &mut out, &mut nfiles); }
-            "Q" => {
+            "Q" | "QX" => {
                 close(&mut cur, &mut pending);
                 barrier(&mut pending, &mut out, &mut nfiles);
-                let (af, p) = (n(1), n(2));
-                let pfx = inetnum::addr::Prefix::from_str(&prefix_str(af, p)).unwrap();
+                let af = n(1);
+                let pfx = if op[0] == "Q" { inetnum::addr::Prefix::from_str(&prefix_str(af, n(2))).unwrap() }
+                          else { wire_prefix(af, op[2]).expect("QX: prefix") };
                 let mo = MatchOptions { match_type: MatchType::ExactMatch, include_withdrawn: true, include_less_specifics: false, include_more_specifics: false, mui: None };
                 let res = rib.verif_rib().match_prefix(&pfx, &mo).unwrap();
                 let mut es: Vec<String> = res.prefix_meta.iter().map(|r| {
-                    format!("{}={}{}", nm.wire(r.multi_uniq_id), if r.status == RouteStatus::Active { "A" } else { "W" }, first_hop(&r.meta))
+                    format!("{}={}{}", nm.wire(r.multi_uniq_id), if r.status == RouteStatus::Active { "A" } else { "W" }, attr_tok(&r.meta))
                 }).collect();
                 es.sort();
                 out.push(format!("q:{}", es.join(",")));
